@@ -1096,9 +1096,10 @@ def _child_factory(attr):
 
 
 def inplace_sites(o, out=None, seen=None, where='', attr=None):
-    """(name, action) for every public way of changing `o` or anything reachable from it IN PLACE, in a
+    """(name, action, model_op) for every public way of changing `o` or anything reachable from it IN PLACE, in a
     deterministic order: item assignment / deletion / update() on every NocaseDict, CIMInstanceName and CIMInstance,
-    append / pop on every list value, re-binding of every name / flag attribute, at every depth"""
+    append / pop on every list value, re-binding of every name / flag attribute, at every depth.
+    model_op = (target object, InOp description with real value objects) or None when the model has no such operation"""
     out = [] if out is None else out
     seen = set() if seen is None else seen
     if not is_mut(o) or id(o) in seen:
@@ -1106,53 +1107,85 @@ def inplace_sites(o, out=None, seen=None, where='', attr=None):
     seen.add(id(o))
     k = type(o).__name__
     if isinstance(o, list):
-        out.append((where + 'list.append', lambda: o.append(o[0] if o else None)))
+        val = o[0] if o else None
+        out.append((where + 'list.append', lambda: o.append(val), (o, {'o': 'listAppend', 'v': val})))
         if o:
-            out.append((where + 'list.pop', lambda: o.pop()))
+            out.append((where + 'list.pop', lambda: o.pop(), (o, {'o': 'listPop'})))
         for e in list(o):
             inplace_sites(e, out, seen, where + '[].', None)
     elif isinstance(o, ncd_base()):
         mk = _child_factory(attr)
         named = [kv[0] for kv in o._data.values() if kv[0] is not None]
-        out.append((where + 'dict[new]=', lambda: o.__setitem__('ZzNew', mk())))
-        out.append((where + 'dict.update', lambda: o.update({'ZzUpd': mk()})))
+        v1, v2, v3 = mk(), mk(), mk()
+        out.append((where + 'dict[new]=', lambda: o.__setitem__('ZzNew', v1), (o, {'o': 'dictSet', 'k': 'ZzNew', 'v': v1})))
+        out.append((where + 'dict.update', lambda: o.update({'ZzUpd': v2}),
+                    (o, {'o': 'dictUpdate', 'items': [['ZzUpd', v2]]})))
         if named:
-            out.append((where + 'dict.del', lambda: o.__delitem__(named[0])))
-            out.append((where + 'dict[old]=', lambda: o.__setitem__(named[-1], mk())))
-            out.append((where + 'dict.pop', lambda: o.pop(named[-1])))
+            out.append((where + 'dict.del', lambda: o.__delitem__(named[0]), (o, {'o': 'dictDel', 'k': named[0]})))
+            out.append((where + 'dict[old]=', lambda: o.__setitem__(_safe_swap(named[-1]), v3),
+                        (o, {'o': 'dictSet', 'k': _safe_swap(named[-1]), 'v': v3})))
+            out.append((where + 'dict.pop', lambda: o.pop(named[-1]), (o, {'o': 'dictDel', 'k': named[-1]})))
         for _, v in list(o._data.values()):
             inplace_sites(v, out, seen, where + '{}.', None)
     elif k in FIELDS:
+        allslots = [x.lstrip('_') for x in type(o).__slots__]
         if k == 'CIMInstanceName':
             names = [kv[0] for kv in o.keybindings._data.values() if kv[0] is not None]
-            out.append((where + 'CIMInstanceName[new]=', lambda: o.__setitem__('ZzKey', 'v')))
-            out.append((where + 'CIMInstanceName.update', lambda: o.update(ZzUpd='u')))
+            out.append((where + 'CIMInstanceName[new]=', lambda: o.__setitem__('ZzKey', 'v'),
+                        (o, {'o': 'pathSet', 'k': 'ZzKey', 'v': 'v'})))
+            out.append((where + 'CIMInstanceName.update', lambda: o.update(ZzUpd='u'),
+                        (o, {'o': 'pathSet', 'k': 'ZzUpd', 'v': 'u'})))
             if names:
-                out.append((where + 'CIMInstanceName[old]=', lambda: o.__setitem__(names[0], 'changed')))
-                out.append((where + 'CIMInstanceName.del', lambda: o.__delitem__(names[0])))
+                out.append((where + 'CIMInstanceName[old]=', lambda: o.__setitem__(names[0], 'changed'),
+                            (o, {'o': 'pathSet', 'k': names[0], 'v': 'changed'})))
+                out.append((where + 'CIMInstanceName.del', lambda: o.__delitem__(names[0]),
+                            (o, {'o': 'pathDel', 'k': names[0]})))
         if k == 'CIMInstance':
             props = [kv[0] for kv in o.properties._data.values()]
-            out.append((where + 'CIMInstance[new]=', lambda: o.__setitem__('ZzProp', 'v')))
-            out.append((where + 'CIMInstance.update', lambda: o.update(ZzUpd='u')))
+            out.append((where + 'CIMInstance[new]=', lambda: o.__setitem__('ZzProp', 'v'), None))
+            out.append((where + 'CIMInstance.update', lambda: o.update(ZzUpd='u'), None))
             if props:
-                out.append((where + 'CIMInstance.del', lambda: o.__delitem__(props[0])))
+                out.append((where + 'CIMInstance.del', lambda: o.__delitem__(props[0]), None))
             if o.path is not None:
                 # a key property: assigning it propagates the value into path.keybindings
                 kn = [kv[0] for kv in o.path.keybindings._data.values() if kv[0] is not None]
                 if kn:
                     out.append((where + 'CIMInstance[key]= (propagates to path)',
-                                lambda: o.__setitem__(kn[0], 'propagated')))
+                                lambda: o.__setitem__(kn[0], 'propagated'), None))
         for s in pub_slots(o):
             v = getattr(o, s)
+            idx = allslots.index(s)
             if s in NAME_ATTRS:
-                out.append((where + k + '.' + s + '=', lambda s=s, v=v: setattr(o, s, (v or '') + 'Zz')))
+                nv = (v or '') + 'Zz'
+                out.append((where + k + '.' + s + '=', lambda s=s, nv=nv: setattr(o, s, nv),
+                            (o, {'o': 'setAttr', 'slot': idx, 'v': nv})))
             elif s in FLAG_ATTRS and s != 'is_array':
-                out.append((where + k + '.' + s + '=', lambda s=s, v=v: setattr(o, s, not v)))
+                nb = not v
+                out.append((where + k + '.' + s + '=', lambda s=s, nb=nb: setattr(o, s, nb),
+                            (o, {'o': 'setAttr', 'slot': idx, 'v': nb})))
             elif s == 'value' and v is not None and not isinstance(v, list):
-                out.append((where + k + '.value=None', lambda: setattr(o, 'value', None)))
+                out.append((where + k + '.value=None', lambda: setattr(o, 'value', None),
+                            (o, {'o': 'setAttr', 'slot': idx, 'v': None})))
             if is_mut(v):
                 inplace_sites(v, out, seen, where + s + '.', s)
     return out
+
+
+def _safe_swap(s):
+    """another spelling of an ASCII key (non-ASCII swapcase leaves the alphabet of the model's CaseOps.py)"""
+    return s.swapcase() if s.isascii() else s
+
+
+def _inop_json(desc, ids):
+    """the driver's InOp encoding of a model_op (values encoded with the identities of the object before the change)"""
+    o = dict(desc)
+    if 'k' in o:
+        o['k'] = _key_json(o['k'])
+    if 'v' in o:
+        o['v'] = _strip_slots(enc(o['v'], ids))
+    if 'items' in o:
+        o['items'] = [[_key_json(kk), _strip_slots(enc(vv, ids))] for kk, vv in o['items']]
+    return o
 
 
 def eval_mutseq(case):
@@ -1183,6 +1216,13 @@ def eval_mutseq(case):
             holder = {a: 1}                      # noqa  (what a set / dict user does)
             sa, sb = inplace_sites(a), inplace_sites(b)
             r['site'] = sa[i][0]
+            kreq = None
+            if sa[i][2] is not None:
+                ids = Ids()
+                before = _strip_slots(enc(a, ids))
+                tgt = ids.map.get(id(sa[i][2][0]))
+                if tgt is not None:
+                    kreq = {'op': 'inplace', 'a': before, 'i': tgt, 'o': _inop_json(sa[i][2][1], ids)}
             try:
                 sa[i][1]()
             except Exception as e:  # noqa   the mutation itself is refused (validation): nothing to check
@@ -1195,6 +1235,8 @@ def eval_mutseq(case):
             r['inset'] = b in {a}
             r['changed'] = hash(a) != h0
             r['encs'] = [enc(a, Ids()), enc(b, Ids())]
+            if kreq is not None:
+                r['inplace'] = kreq
         except Exception as e:  # noqa
             r['exc'] = common.exc_json(e)
         res.append(r)
@@ -1210,7 +1252,7 @@ def oracle_mutseq(run, case, ev):
             run.violate({'kind': 'mutation_sequence_raises', 'cls': kind, 'exc': r['exc'].get('exc'),
                          'via': r['site']}, case, r)
             continue
-        obs = {k: v for k, v in r.items() if k != 'encs'}
+        obs = {k: v for k, v in r.items() if k not in ('encs', 'inplace')}
         if not r['eq']:
             run.violate({'kind': 'same_mutation_gives_unequal_objects', 'cls': kind, 'via': r['site']}, case, obs)
         elif not r['heq']:
@@ -1247,6 +1289,15 @@ def _mutseq_batch(run, cases):
             if 'encs' in r:
                 reqs.append({'op': 'cmpn', 'objs': [_strip_slots(e) for e in r['encs']], 'pairs': [[0, 1]]})
                 kept.append((case, r))
+    ireqs = [(case, r) for case, r in kept if 'inplace' in r]
+    ianswers = common.run_driver(PROP, [r['inplace'] for _, r in ireqs]) if ireqs else []
+    for (case, r), ans in zip(ireqs, ianswers):
+        run.count('mutseq:model_op:' + r['inplace']['o']['o'])
+        want = strip_ids(_strip_slots(r['encs'][0]))
+        got = strip_ids(ans.get('obj'))
+        if got != want:
+            run.disagree({'case': case, 'site': r['site'], 'op': r['inplace']['o']}, got, want,
+                         'object after an in-place change (mutAt / applyOp)')
     answers = common.run_driver(PROP, reqs) if reqs else []
     for (case, r), ans in zip(kept, answers):
         if 'res' not in ans:
@@ -1254,7 +1305,7 @@ def _mutseq_batch(run, cases):
             continue
         m = ans['res'][0]
         if m['eq'] != r['eq'] or (m['heq'] and not r['heq']):
-            run.disagree({'case': case, 'site': r['site']}, m, {k: v for k, v in r.items() if k != 'encs'},
+            run.disagree({'case': case, 'site': r['site']}, m, {k: v for k, v in r.items() if k not in ('encs', 'inplace')},
                          'eq / hash after an in-place change')
 
 
@@ -1290,8 +1341,8 @@ def gen_dict_case(rng):
         elif r < 0.84:
             ops.append({'o': 'setdefault', 'k': k, 'v': v})
         elif r < 0.91:
-            ops.append({'o': 'update', 'items': [[rng.choice(DKEYS), rng.choice(DVALS)]
-                                                 for _ in range(rng.randint(0, 4))]})
+            ops.append({'o': 'update', 'how': rng.choice(['pairs', 'pairs', 'mapping', 'kwargs']),
+                        'items': [[rng.choice(DKEYS), rng.choice(DVALS)] for _ in range(rng.randint(0, 4))]})
         elif r < 0.93:
             ops.append({'o': 'clear'})
         elif r < 0.96:
@@ -1347,7 +1398,15 @@ def eval_dictops(case):
             elif o == 'setdefault':
                 out = {'val': _enc_ret(d.setdefault(k, v), ids)}
             elif o == 'update':
-                d.update([(kk, build_value(vv)) for kk, vv in op['items']])
+                pairs = [(kk, build_value(vv)) for kk, vv in op['items']]
+                how = op.get('how', 'pairs')
+                uniq = len({kk for kk, _ in pairs}) == len(pairs) and all(kk is not None for kk, _ in pairs)
+                if how == 'mapping' and uniq:
+                    d.update(dict(pairs))
+                elif how == 'kwargs' and uniq:
+                    d.update(**dict(pairs))
+                else:
+                    d.update(pairs)
                 out = {'none': True}
             elif o == 'clear':
                 d.clear()
@@ -1447,7 +1506,15 @@ def eval_xkind(case):
         n = {'ok': bool(a != b)}
     except Exception as e:  # noqa
         n = common.exc_json(e)
-    return {'eq': r, 'ne': n, 'encs': [enc(a, Ids()), enc(b, Ids())]}
+    import operator
+    order = []
+    for opf in (operator.lt, operator.le, operator.gt, operator.ge):
+        try:
+            opf(a, b)
+            order.append('ok')
+        except Exception as e:  # noqa
+            order.append(type(e).__name__)
+    return {'eq': r, 'ne': n, 'order': order, 'encs': [enc(a, Ids()), enc(b, Ids())]}
 
 
 def _xkind_worker(case):
@@ -1463,8 +1530,12 @@ def _xkind_batch(run, cases):
         same = case['kinds'][0] == case['kinds'][1]
         run.case(case, nontrivial=not same)
         run.count('xkind:' + ('same' if same else 'other') + ':' + (ev['eq'].get('exc') or 'ok'))
+        m_order = ans.pop('order', None)
         if ans != ev['eq']:
             run.disagree(case, ans, ev['eq'], '== between objects of two classes')
+        if any(o != (m_order or {}).get('exc') for o in ev['order']):
+            run.disagree(case, m_order, ev['order'], 'ordering operators')
+            run.violate({'kind': 'ordering_not_rejected_with_typeerror', 'kinds': case['kinds']}, case, ev['order'])
         # oracle: same class -> a boolean; other class -> the documented TypeError, for == and != alike
         if same and 'ok' not in ev['eq']:
             run.violate({'kind': 'eq_raises', 'cls': case['kinds'][0], 'exc': ev['eq'].get('exc')}, case, ev['eq'])
@@ -1511,9 +1582,9 @@ def _register_module():
 def run(run):
     _register_module()
     rng = run.rng
-    n_cmp = 100000 if run.thorough else 8000
-    n_copy = 20000 if run.thorough else 2000
-    n_mut = 12000 if run.thorough else 1500
+    n_cmp = 70000 if run.thorough else 6000
+    n_copy = 14000 if run.thorough else 1500
+    n_mut = 8000 if run.thorough else 1200
     run.rule = ('cmp: seeded random object of one of 11 kinds (9 CIM classes, CIMDateTime, NocaseDict; nesting depth <= 3; '
                 'names from a 24-name pool with case variants and non-ASCII spellings), then b = variant(a), c = variant(b|a) '
                 'with variant in {same, recase, reorder, numeric retype, one-attribute mutation (possibly nested), combinations}; '
@@ -1550,8 +1621,8 @@ def run(run):
         done += m
         _timed(run, _copy_batch, [gen_copy_case(rng) for _ in range(m)])
     # ---- NocaseDict API histories, comparisons across classes
-    n_dict = 30000 if run.thorough else 4000
-    n_x = 6000 if run.thorough else 800
+    n_dict = 24000 if run.thorough else 4000
+    n_x = 4000 if run.thorough else 600
     done = 0
     while done < n_dict:
         m = min(CMP_BATCH, n_dict - done)
@@ -1712,7 +1783,7 @@ def replay(payload):
         if ev is None:
             return True, 'spec rejected by the constructors (nothing to check)'
         oracle_mutseq(r, case, ev)
-        shown = [{k: v for k, v in x.items() if k != 'encs'} for x in ev['res']]
+        shown = [{k: v for k, v in x.items() if k not in ('encs', 'inplace')} for x in ev['res']]
     elif case.get('mode') == 'copy':
         ev = eval_copy(case)
         if ev is None:
